@@ -82,8 +82,9 @@ type GroupState struct {
 	CachedCPU *big.Int
 	CachedMem *big.Int
 	CacheEpoch int
-	// last scan had an injected fault / crash in this group's lifetime
-	LastFaulted bool
+	// consecutive failed fleet scale-ups of the group in this controller lifetime
+	FleetFailStreak int
+	FleetStreakEpoch int
 }
 
 // History carries the cross-scan model state for one simulated deployment.
@@ -144,6 +145,7 @@ type GroupCtx struct {
 	IncreaseAccepted bool
 	IncreaseAt   int64
 	IncreaseTried bool
+	FleetFailStreak int // consecutive fleet scale-ups of this group whose instances had to be cleaned up, this one included
 }
 
 // ScanCtx is a scan plus its per-group contexts.
@@ -197,10 +199,20 @@ func BaseCfg(env *sim.Env, gi int) *oracle.Cfg {
 func (h *History) Observe(rec *sim.ScanRecord) *ScanCtx {
 	sc := &ScanCtx{Rec: rec}
 	sc.Exact = rec.FaultHits == 0 && !rec.Stale && !rec.MidScan && !rec.Crashed && rec.Panic == nil && !rec.Fatal
-	sc.UpExact = !rec.Stale && !rec.MidScan && !rec.Crashed && rec.Panic == nil && !rec.Fatal
+	// UpExact: what the scan needs is still exactly known from the view it was served (also a stale one), and how it
+	// must split it between untainting and the cloud can be judged, as long as the injected failures are clean
+	// failures of node reads/writes or removal calls (no lost reply, nothing wrong with lists, describes or resizes)
+	sc.UpExact = !rec.MidScan && !rec.Crashed && rec.Panic == nil && !rec.Fatal
 	for _, e := range rec.Events {
-		if e.Injected && ((e.API != sim.AwsTermASG && e.API != sim.K8sDelete) || e.Applied) {
-			// (a lost reply - the call took effect but reported failure - leaves escalator with a wrong picture of the cloud)
+		if !e.Injected {
+			continue
+		}
+		switch e.API {
+		case sim.AwsTermASG, sim.K8sDelete, sim.K8sGet, sim.K8sUpdate:
+			if e.Applied {
+				sc.UpExact = false // lost reply
+			}
+		default:
 			sc.UpExact = false
 		}
 	}
@@ -254,6 +266,26 @@ func (h *History) Observe(rec *sim.ScanRecord) *ScanCtx {
 		}
 		g.Plan = oracle.Decide(oracle.Input{View: g.View, NowNanos: g.Now, Locked: g.Locked, CachedCPU: st.CachedCPU, CachedMem: st.CachedMem})
 		h.derive(g, rec)
+		if st.FleetStreakEpoch != rec.Epoch || rec.Rebuilt {
+			// the counter lives in the provider's group object: a new controller or a rebuilt provider starts at zero
+			st.FleetFailStreak, st.FleetStreakEpoch = 0, rec.Epoch
+		}
+		if len(g.Fleets) > 0 {
+			if g.IncreaseAccepted {
+				st.FleetFailStreak = 0
+			} else {
+				ok := false
+				for _, e := range g.Fleets {
+					if e.OK() && e.Fleet != nil && len(e.Fleet.Returned) > 0 {
+						ok = true // instances were acquired and then not attached: the clean-up path ran
+					}
+				}
+				if ok {
+					st.FleetFailStreak++
+				}
+			}
+		}
+		g.FleetFailStreak = st.FleetFailStreak
 		// arm the lock model when the cloud accepted an increase
 		if g.IncreaseAccepted {
 			st.Lock = LockModel{Armed: true, At: g.IncreaseAt, Epoch: rec.Epoch}
